@@ -68,6 +68,16 @@ WORDS = ["a", "b", "abc", "x1", "foo_bar", "A"]
 NUMALPHA = "0123456789+-._:eExobn~ytfN "
 POOL = LOOKALIKE + SYNTAX + BAD + WORDS
 
+# dataclasses used as type-hint VALUES (Optional[D], List[D], Dict[str, D], a D field of another D): name -> fields
+# (name, type, default); built in the runner with dataclasses.make_dataclass from this very table
+DATACLASSES = [
+    ("Limits", [("low", ["opt", "float"], {"$f": "0.0"}), ("high", ["opt", "float"], {"$f": "1.0"})]),
+    ("Sched", [("name", "str", "a"), ("steps", ["opt", "int"], None), ("warmup", ["opt", "int"], 100),
+               ("lim", ["opt", ["dc", "Limits"]], None), ("tags", ["list", "str"], []),
+               ("mode", ["union", ["int", "str"]], "auto")]),
+]
+DC_FIELDS = dict(DATACLASSES)
+
 BASE = ["str", "int", "float", "bool"]
 UNIONS = [["int", "str"], ["str", "int"], ["float", "str"], ["str", "float"], ["int", "float"], ["float", "int"],
           ["bool", "int"], ["int", "bool"], ["bool", "str"], ["str", "bool"], [["list", "int"], "str"],
@@ -91,6 +101,8 @@ def gen_type(rng, depth=0, hashable=False):
             return ["lit", rng.choice(LITS)]
         if r2 < 0.18:
             return "any"
+        if r2 < 0.30:
+            return ["dc", rng.choice(["Limits", "Limits", "Sched"])]
         return rng.choice(BASE + ["str"])
     if hashable:
         return ["tuple", [gen_type(rng, 2, True) for _ in range(rng.randint(1, 2))]] if r < 0.5 else gen_type(rng, 2, True)
@@ -104,6 +116,10 @@ def gen_type(rng, depth=0, hashable=False):
     if k == "set":
         return ["set", gen_type(rng, depth + 1, True)]
     return [k, gen_type(rng, depth + 1)]
+
+
+def has_dc(t):
+    return "\"dc\"" in json.dumps(t)
 
 
 def gen_str(rng):
@@ -176,6 +192,17 @@ def gen_value(rng, t):
         return {"$t": [gen_value(rng, t[1]) for _ in range(rng.randint(0, 3))]}
     if k == "set":
         return {"$s": [gen_value(rng, t[1]) for _ in range(rng.randint(0, 3))]}
+    if k == "dc":
+        v = {}
+        for fname, ftype, fdef in DC_FIELDS[t[1]]:
+            r = rng.random()
+            if r < 0.35:
+                continue                                   # field left to its default
+            if r < 0.6 and isinstance(ftype, list) and ftype[0] == "opt":
+                v[fname] = None                            # explicit null (over a None or a non-None default)
+            else:
+                v[fname] = gen_value(rng, ftype)
+        return v
     if k == "lit":
         return rng.choice(t[1])
     if k == "enum":
@@ -300,6 +327,12 @@ def make_case(rng, leaves, variant):
 ABSENT = object()
 
 
+def no_bare_dc(t):
+    """a dataclass type directly at a leaf behaves like an expanded group (its default is the completed Namespace and
+    skip_default descends into it): the value grammar has dataclasses below Optional / containers only"""
+    return ["opt", t] if isinstance(t, list) and t[0] == "dc" else t
+
+
 def random_case(rng):
     n = rng.choice([1, 1, 2, 2, 3, 4, 5])
     keys = []
@@ -318,9 +351,9 @@ def random_case(rng):
     variant = pick_variant(rng)
     leaves = []
     for key in keys:
-        t = gen_type(rng)
+        t = no_bare_dc(gen_type(rng))
         r = rng.random()
-        d = None if r < 0.3 else gen_value(rng, t)
+        d = None if r < 0.3 or has_dc(t) else gen_value(rng, t)
         if '"nan"' in json.dumps(d):      # `==` on containers holding the very same nan object is identity-based
             d = None
         r2 = rng.random()
@@ -389,6 +422,24 @@ def sweep_cases(rng, tier):
     for z in INTS:
         cases.append(make_case(rng, [("n", "int", 3, z), ("d", ["dict_int", "int"], None, {"$d": [[z, z]]})],
                                dict(rng.choice(fmts))))
+    # dataclass-typed VALUES (not groups): explicit nulls over None / non-None field defaults, nested dataclass, every variant
+    keep = [{"kind": "dump", "format": "yaml", "skip_none": False}, {"kind": "dump", "format": "json", "skip_none": False},
+            {"kind": "dump", "format": "json_indented", "skip_none": False},
+            {"kind": "dump", "format": "yaml", "skip_none": False, "skip_default": True},
+            {"kind": "print_config", "format": "yaml", "flags": ""}, {"kind": "print_config", "format": "yaml", "flags": "skip_default"},
+            {"kind": "save", "format": "yaml", "skip_none": False}, {"kind": "save", "format": "yaml"}]
+    dvals = [("lim", ["opt", ["dc", "Limits"]], None, {"high": None}),
+             ("lim", ["opt", ["dc", "Limits"]], None, {"low": None, "high": {"$f": "2.5"}}),
+             ("lim", ["opt", ["dc", "Limits"]], None, {"low": {"$f": "0.5"}}),
+             ("many", ["list", ["dc", "Limits"]], [], [{"low": None, "high": {"$f": "2.0"}}, {}]),
+             ("byname", ["dict", ["dc", "Limits"]], None, {"1e3": {"high": None}, "a: b": {}}),
+             ("pair", ["tuple", [["dc", "Limits"], "str"]], None, {"$t": [{"low": None}, "null"]}),
+             ("sched", ["opt", ["dc", "Sched"]], None, {"name": "1e3", "warmup": None, "lim": {"low": None}, "tags": ["null", "a: b"]}),
+             ("sched", ["opt", ["dc", "Sched"]], None, {"steps": None, "lim": None, "mode": "7"}),
+             ("sched", ["list", ["opt", ["dc", "Sched"]]], None, [{"steps": 3, "mode": 5, "lim": {"high": None}}, None])]
+    for key, t, d, v in dvals:
+        for var in keep:
+            cases.append(make_case(rng, [(key, t, d, v), ("seed", ["opt", "int"], 7, 3)], dict(var)))
     # the designed findings, in their smallest form
     cases.append(make_case(rng, [("k", ["opt", "int"], 5, None)], {"kind": "save", "format": "yaml"}))
     cases.append(make_case(rng, [("d", ["dict", "int"], {"a": 1, "b": 3}, {"a": 1, "b": 2})],
@@ -421,7 +472,7 @@ def observe(cases):
     if not cases:
         return out
     n = min(fw.JOBS, len(cases))
-    res = run_impl_parallel("c01_roundtrip.py", [{"cases": cases[k::n]} for k in range(n)])
+    res = run_impl_parallel("c01_roundtrip.py", [{"cases": cases[k::n], "dataclasses": DATACLASSES} for k in range(n)])
     for k, r in enumerate(res):
         for i, o in zip(range(k, len(cases), n), r):
             out[i] = o
@@ -502,6 +553,9 @@ def g_ty(t):
         return "(CLit %s)" % g_list([g_val(x) for x in t[1]], "val")
     if k == "enum":
         return "(CEnum %s %s)" % (g_str(t[1]), g_list([g_str(m) for m in ENUM_MEMBERS[t[1]]], "str"))
+    if k == "dc":
+        return "(CData %s)" % g_list(["(%s, %s, %s)" % (g_str(n), g_ty(ft), g_val(fd)) for n, ft, fd in DC_FIELDS[t[1]]],
+                                     "(str * cty * val)")
     raise ValueError(t)
 
 
